@@ -276,7 +276,7 @@ PacketOutEl(n, acts, datalen, tag) ==
   LET t == [T |-> "PacketOut", Header |-> [Xid |-> Xid(tag)], BufferId |-> V(tag, 4), InPort |-> V(tag + 1, 4), Actions |-> TreesOf(acts), Data |-> [T |-> "Buffer", B |-> V(tag + 2, datalen)]] IN
   El(n, t, OpsOf(acts) \o <<New(n, "NewPacketOut", <<>>), Set(n, "Xid", t.Header.Xid), Set(n, "BufferId", t.BufferId), Set(n, "InPort", t.InPort)>>
        \o [i \in DOMAIN acts |-> Call(n, "AddAction", <<Ref(acts[i].n)>>)] \o <<Call(n, "SetData", <<t.Data.B>>)>>)
-SimpleKinds == {"echoreq", "echorep", "featreq", "confreq", "barrier", "hello", "setconfig", "portmod", "setctrlid", "tlvreq"}
+SimpleKinds == {"echoreq", "echorep", "featreq", "confreq", "barrier", "hello", "hello3e", "setconfig", "portmod", "portmod0", "portmod8", "setctrlid", "tlvreq"}
 MpKinds == {"desc", "flow", "aggregate", "table", "portdesc"}
 SimpleEl(n, kind, tag) ==
   CASE kind = "echoreq"  -> El(n, [T |-> "Header", Type |-> <<2>>, Xid |-> Xid(tag)], <<New(n, "NewEchoRequest", <<>>), Set(n, "Xid", Xid(tag))>>)
@@ -288,12 +288,24 @@ SimpleEl(n, kind, tag) ==
     [] kind = "hello"    -> El(n, [T |-> "Hello", Header |-> [Xid |-> Xid(tag)], Elements |-> << [T |-> "HelloElemVersionBitmap", Bitmaps |-> << V(tag, 4) >>] >>],
                                <<New(Nm(n, 1), "NewHelloElemVersionBitmap", <<>>), Set(Nm(n, 1), "Bitmaps", << V(tag, 4) >>),
                                  New(n, "NewHello", <<4>>), Set(n, "Xid", Xid(tag)), Set(n, "Elements", <<Ref(Nm(n, 1))>>)>>)
+    [] kind = "hello3e"  ->                            \* several elements, bitmaps of 2, 1 and 3 words (element lengths 12, 8, 16: the first needs padding)
+         LET bm(i) == [j \in 1..(<<2, 1, 3>>)[i] |-> V(tag + 10 * i + j, 4)]
+             e(i) == [T |-> "HelloElemVersionBitmap", Bitmaps |-> bm(i)] IN
+         El(n, [T |-> "Hello", Header |-> [Xid |-> Xid(tag)], Elements |-> <<e(1), e(2), e(3)>>],
+            Flat([i \in 1..3 |-> <<New(Nm(n, i), "NewHelloElemVersionBitmap", <<>>), Set(Nm(n, i), "Bitmaps", bm(i))>>])
+              \o <<New(n, "NewHello", <<4>>), Set(n, "Xid", Xid(tag)), Set(n, "Elements", <<Ref(Nm(n, 1)), Ref(Nm(n, 2)), Ref(Nm(n, 3))>>)>>)
     [] kind = "setconfig" -> El(n, [T |-> "SwitchConfig", Header |-> [Type |-> <<9>>, Xid |-> Xid(tag)], Flags |-> V(tag, 2), MissSendLen |-> V(tag + 1, 2)],
                                 <<New(n, "NewSetConfig", <<>>), Set(n, "Xid", Xid(tag)), Set(n, "Flags", V(tag, 2)), Set(n, "MissSendLen", V(tag + 1, 2))>>)
     [] kind = "portmod"  -> El(n, [T |-> "PortMod", Header |-> [Xid |-> Xid(tag)], PortNo |-> <<0, 0, 0, 7>>, HWAddr |-> V(tag, 6), Config |-> V(tag + 1, 4),
                                    Mask |-> V(tag + 2, 4), Advertise |-> V(tag + 3, 4)],
                                <<New(n, "NewPortMod", <<7>>), Set(n, "Xid", Xid(tag)), Set(n, "HWAddr", V(tag, 6)), Set(n, "Config", V(tag + 1, 4)),
                                  Set(n, "Mask", V(tag + 2, 4)), Set(n, "Advertise", V(tag + 3, 4))>>)
+    [] kind \in {"portmod0", "portmod8"} ->           \* the address left unset (port-mod that does not change it) or longer than the 6-byte slot
+         LET hw == V(tag, IF kind = "portmod0" THEN 0 ELSE 8) IN
+         El(n, [T |-> "PortMod", Header |-> [Xid |-> Xid(tag)], PortNo |-> <<0, 0, 0, 7>>, HWAddr |-> hw, Config |-> V(tag + 1, 4),
+                Mask |-> V(tag + 2, 4), Advertise |-> V(tag + 3, 4)],
+            <<New(n, "NewPortMod", <<7>>), Set(n, "Xid", Xid(tag)), Set(n, "HWAddr", hw), Set(n, "Config", V(tag + 1, 4)),
+              Set(n, "Mask", V(tag + 2, 4)), Set(n, "Advertise", V(tag + 3, 4))>>)
     [] kind = "setctrlid" -> El(n, [T |-> "VendorHeader", Header |-> [Xid |-> Xid(tag)], Vendor |-> NxVendor, ExperimenterType |-> <<0, 0, 0, 20>>,
                                     VendorData |-> [T |-> "ControllerID", ID |-> V(tag, 2)]],
                                 <<New(n, "NewSetControllerID", <<V(tag, 2)>>), Set(n, "Header.Xid", Xid(tag))>>)
